@@ -9,17 +9,17 @@ import numpy as np
 from harness.common import *
 import vlib
 
-LEVEL_TEXT = ('Lean 4 theorem, for all input fields/offsets, sampling ratios, integer splits of the tilt shift, output extents (whole '
-              'array or mask box) and propagation shapes: each output field of propagate_dft equals, at every global output '
-              'coordinate inside out_extent ∩ prop_extent, the unitary dft2 sum evaluated at that coordinate relative to the '
-              'shifted centre, and is exactly zero elsewhere; Wavefront.field[i][j] is the sum of these over the input fields '
-              '(insert proved on the generated index kernel); shape/prop_shape/mask only select samples; mask box = bounding '
-              'rows/cols re-centred at floor(S/2). The window arithmetic is regenerated from propagate.py/extent.py on every run; '
-              'alpha, the dft2 call and Wavefront.field are a hand model checked against the implementation. Partial: see note.')
-LEVEL_NOTE = ('Partial: the statement is about the dft2 model (its reduction to the defining double sum is C01 dft2_eq_defining_sum); '
-              'the per-axis alpha formula, metadata (wavelength, focal length, du/oversample, ptype) and np.fix are carried by the '
-              'correspondence and the oracle, not by a theorem. '
-              'Trusted: Lean kernel, py2lean subset semantics, NumPy dot/exp/broadcast as modelled, generator coverage.')
+LEVEL_TEXT = ('Lean 4 theorems, for all input fields/offsets, samplings, integer splits of the tilt shift, output extents (whole array or '
+              'mask box), propagation shapes and oversampling factors: Wavefront.field[i][j] of the propagated wavefront equals the sum over '
+              'the input fields whose window out_extent ∩ prop_extent contains the sample of sqrt|ar ac| Σ f(x,y) exp(-2πi(ar X (g-s) + ac Y (g-s))) '
+              '(stated at C/R by composing with C01 dft2_eq_defining_sum) with alpha = dx·du/(λ z os) per axis, and exactly zero elsewhere; '
+              'shape/prop_shape/mask only select samples; oversampling only divides alpha and multiplies the grid; wavelength, focal length, '
+              'du/oversample and the flipped plane type are carried. Window arithmetic, _dft_alpha, its call site, shape·oversample and the '
+              'metadata hand-over are regenerated from propagate.py/extent.py/field.py on every run; the dft2 call and np.fix are a hand '
+              'model checked against the implementation (the code\'s own fix/sub split is observed, not recomputed).')
+LEVEL_NOTE = ('Partial: per-field sums are not merged into one sum over the input-plane array when fields carry different shifts (for a '
+              'common shift the oracle checks it); lentil.boundary (mask bounding box) enters as a parameter (differential only). '
+              'Trusted: Lean kernel, py2lean subset semantics, NumPy dot/exp/broadcast/fix as modelled, generator coverage.')
 TECHNIQUE = 'Lean 4 proof (omega + ring) over translator-regenerated window kernel + Float model with differential correspondence'
 GEN = ['Extent', 'FieldIdx', 'Window', 'PropagateMeta', 'PlaneType']
 OPS = ['C02']
@@ -30,8 +30,8 @@ RULE = ('cases: pupils 1..6 x 1..6 (even/odd/non-square, off-centre support, 1..
         'shape, prop_shape, mask box, tilt class); non-trivial = window clipped / mask / tilt / per-axis sampling / offset field')
 TRUSTED = ['np.dot(E1.dot(f), E2), np.exp, np.outer, np.fix, np.broadcast_to as modelled in Model/Fourier.lean and Model/Propagate.lean',
            'lentil.fourier.dft2 = Model dft2 (checked by C01); lentil.field.insert = Model insertArr (checked by C06)']
-UNPROVEN = ['reduction of the dft2 model to the defining Fraunhofer double sum (C01 dft2_eq_defining_sum, to be composed)',
-            'alpha = dx*du/(wavelength*z*oversample) per axis and the metadata record: correspondence + oracle only']
+UNPROVEN = ['lentil.boundary(mask) = bounding rows/cols of the support: parameter of the theorems, differential only',
+            'merging the per-field Fraunhofer sums into the sum over Wavefront.field of the input (C01 dft2_subarray_offset/dft2_add): oracle-checked']
 ASSUMPTIONS = ['shape >= 1, prop_shape >= 1, non-empty mask; the shift split fix+sub is arbitrary in the theorem (np.fix in the code)',
                'generated tilt shifts keep a fractional part in [0.05,0.95] so that np.fix is insensitive to rounding']
 
